@@ -71,9 +71,13 @@ CHECKS["C09"] = dict(
     text="Theorems: mean of a concatenation = count-weighted mean (any number of parts); for every "
          "n >= 2 and every draw list (with repetition) the two split masks are disjoint, exhaustive and "
          "both non-empty; count-weighted mean of half averages = full average; determinism in the draw "
-         "stream; squeeze rule. The random generator and dask are parameters; the splitter's structure "
-         "is read from the AST and driven with a stub generator.",
-    design="5 C09", technique="Lean 4 proof over list model + stub-generator correspondence")
+         "stream; squeeze rule. Array level (C09Array): Model.averageSplit (one generator, n_set consecutive "
+         "splits, set-major pairs of half maps) pairs the complementary halves of the SAME split in every entry "
+         "and the halves recombine to the full average voxel by voxel, for every stack, n_set and draw stream. "
+         "The random generator and dask are parameters; the splitter's structure is read from the AST and driven "
+         "with a stub generator; the real average_split of a real loader is run with a prescribed draw stream "
+         "and compared with the model (K2 m:avgsplit).",
+    design="5 C09", technique="Lean 4 proof over list and stack models of the split + stub-generator correspondence through the real average_split")
 
 CHECKS["C17"] = dict(
     text="Theorems (any shell, any spectra; Mathlib Finset sums): num^2 <= sum|F1|^2 sum|F2|^2, symmetry, "
